@@ -27,6 +27,7 @@ fn heights_positions(q: &Quantile) -> (Vec<f64>, Vec<i64>) {
 fn c15_invariants(out: &mut Out, q: &Quantile, p: f64, seen: &[f64]) {
     let n = seen.len() as u64;
     out.x(format!("{:?}", q.clone()) == format!("{:?}", q), || "Quantile: clone() differs from the original".to_string());
+    { let mut t = Quantile::new(0.5); for i in 0..(n % 9) { t.add(i as f64); } t.clone_from(q); out.x(format!("{:?}", t) == format!("{:?}", q), || "Quantile: clone_from() differs from the original".to_string()); }
     out.x(q.len() == n, || format!("len {} after {} observations", q.len(), n));
     out.x(q.is_empty() == (n == 0), || format!("is_empty {} with len {}", q.is_empty(), n));
     out.x(q.p().to_bits() == p.to_bits(), || format!("p() = {:?}, constructed with {:?}", q.p(), p));
@@ -94,7 +95,15 @@ pub fn long_stream(rng: &mut Rng, kind: usize, n: usize) -> Vec<f64> {
         4 => (0..n).map(|i| 0.01 * i as f64 + rng.normal()).collect(),                                  // trending
         5 => (0..n).map(|_| rng.below(5) as f64).collect(),                                             // heavy duplicates
         6 => (0..n).map(|_| -(1.0 - rng.unit()).ln()).collect(),
-        _ => (0..n).map(|_| 7.0).collect(),                                                             // constant
+        7 => (0..n).map(|_| 7.0).collect(),                                                             // constant
+        8 => (0..n).map(|_| 1e300 * (1.0 + rng.unit())).collect(),                                      // top of the range, one sign
+        9 => (0..n).map(|_| 5e-324 * rng.below(4000) as f64).collect(),                                 // subnormal lattice
+        10 => (0..n).map(|_| 1.0 + f64::EPSILON * rng.below(64) as f64).collect(),                      // a spread of a few ulps
+        11 => { let mut v: Vec<f64> = (0..n).map(|_| rng.normal()).collect();                           // every observation twice in a row
+               for i in (1..n).step_by(2) { v[i] = v[i - 1]; } v }
+        12 => (0..n).map(|_| rng.unit() * 100.0 * 2f64.powi(-600)).collect(),                           // products of differences underflow
+        13 => (0..n).map(|_| rng.normal() * 2f64.powi(-1000)).collect(),                                // partly subnormal
+        _ => (0..n).map(|_| rng.normal() * 2f64.powi(480)).collect(),                                   // products of differences near overflow
     };
     if kind == 1 { v.sort_by(|a, b| a.partial_cmp(b).unwrap()); }
     if kind == 2 { v.sort_by(|a, b| b.partial_cmp(a).unwrap()); }
@@ -112,9 +121,54 @@ fn run_long(out: &mut Out, rng: &mut Rng, p: f64, data: &[f64], inv_every: usize
         seen.push(x);
         if i < 40 || i % inv_every == 0 || i + 1 == n { c15_invariants(out, &q, p, &seen); }
         if i == 5 || i == 17 || i == n / 2 || i + 1 == n { psq_oracle(out, &q, p, &seen); }
+        // the estimate is read at many sample sizes (round numbers, powers of two and their neighbours)
+        if i < 64 || (i + 1) % 100 == 0 || (i + 1).is_power_of_two() || (i + 2).is_power_of_two() || i.is_power_of_two() {
+            let est = q.quantile();
+            if out.active && ((i + 1) % 1000 == 0 || i < 64 || (i + 1).is_power_of_two()) { out.t("Quantile", "quantile", &qwords(&q).join(" "), "", &fw(est)); }
+            if i >= 4 { let (h, _) = heights_positions(&q); out.x(est.to_bits() == h[2].to_bits(), || format!("quantile() = {:?} after {} observations, middle marker is {:?} (p = {:?})", est, i + 1, h[2], p)); }
+        }
     }
     observe_q(out, &q);
     out.note(&format!("long:n<={}", crate::props_mom::bucket(n)));
+}
+
+/// explicit replay (`avgh data Quantile <p> <xs..>`): every add, the P-square oracle from the fifth observation on,
+/// the small-sample oracle before, the C15 invariants after every observation
+pub fn replay_stream(out: &mut Out, p: f64, xs: &[f64]) {
+    if !out.next_case() { return; }
+    let r = catch_unwind(AssertUnwindSafe(|| Quantile::new(p)));
+    let mut q = match r { Ok(q) => q, Err(_) => { out.t("Quantile", "new", "", &fw(p), "panic"); return; } };
+    let mut seen = Vec::new();
+    for &x in xs {
+        add_traced(out, &mut q, x);
+        seen.push(x);
+        psq_oracle(out, &q, p, &seen);
+        if seen.len() <= 4 { out.o("qsmall", &[&fw(p), &fws(&seen), &fw(q.quantile())]); }
+        c15_invariants(out, &q, p, &seen);
+        observe_q(out, &q);
+    }
+}
+
+/// a stream far too long to be written out: generated by a 64-bit LCG that the Lean driver regenerates
+/// (`O psqgen`); adds around the powers of two are correspondence lines
+pub fn generated_stream(out: &mut Out, p: f64, seed: u64, n: u64, scale: f64) {
+    if !out.next_case() { return; }
+    let (a, c) = (6364136223846793005u64, 1442695040888963407u64);
+    let mut x = seed;
+    let mut q = Quantile::new(p);
+    let (mut mn, mut mx) = (f64::INFINITY, f64::NEG_INFINITY);
+    for i in 0..n {
+        x = a.wrapping_mul(x).wrapping_add(c);
+        let v = (x >> 11) as f64 * 2f64.powi(-53) * scale;
+        let k = i + 1;
+        if k.is_power_of_two() || (k - 1).is_power_of_two() || (k + 1).is_power_of_two() || k % (1 << 24) <= 1 { add_traced(out, &mut q, v); } else { q.add(v); }
+        mn = mn.min(v); mx = mx.max(v);
+    }
+    out.o("psqgen", &[&fw(p), &format!("i{} i{} i{} i{} {}", a, c, seed, n, fw(scale)), &qwords(&q).join(" ")]);
+    let est = q.quantile();
+    out.x(q.len() == n && mn <= est && est <= mx, || format!("generated stream of {} observations: len {} quantile {:?} range [{:?},{:?}]", n, q.len(), est, mn, mx));
+    observe_q(out, &q);
+    out.note(&format!("generated:n<=2^{}", 64 - (n - 1).leading_zeros()));
 }
 
 fn exact_quantile(sorted: &[f64], p: f64) -> f64 {
@@ -145,10 +199,18 @@ pub fn c05(out: &mut Out, tier: &str, rng: &mut Rng) {
             out.note("dfs4");
         }
     }
-    for kind in 0..8 {
+    for kind in 0..15 {
         for &p in &[0.0, 0.05, 0.5, 0.73, 0.99, 1.0] {
-            let d = long_stream(rng, kind, nlong);
+            let d = long_stream(rng, kind, if kind >= 8 { nlong / 4 } else { nlong });
             run_long(out, rng, p, &d, nlong);
+        }
+    }
+    // very long streams (sample sizes around 2^16, 2^20, 2^24), regenerated by the driver
+    {
+        let sizes: &[u64] = if tier == "thorough" { &[(1 << 16) + 3, (1 << 20) + 1, (1 << 24) + (1 << 16), (1 << 25) + 9] } else { &[(1 << 16) + 3, (1 << 20) + 1, (1 << 24) + (1 << 16)] };
+        for (i, &n) in sizes.iter().enumerate() {
+            let p = [0.5, 0.9, 0.25, 0.99][i % 4];
+            generated_stream(out, p, rng.next_u64(), n, [1.0, 1e-3, 100.0, 1.0][i % 4]);
         }
     }
     // "consequently": a strictly decreasing stream (new minima keep arriving) is tracked as well as the reversed,
@@ -267,11 +329,15 @@ pub fn c15(out: &mut Out, tier: &str, rng: &mut Rng) {
             dfs(out, &q, p, &[-1.7e308, 1e308, 1.5e308, 0.0], &mut Vec::new(), std::env::var("AVGH_HUGE_LEN").ok().and_then(|v| v.parse().ok()).unwrap_or(6), true);
         }
     }
-    for kind in 0..8 {
+    for kind in 0..15 {
         for &p in &[0.0, 0.01, 0.3, 0.5, 0.97, 1.0] {
-            let d = long_stream(rng, kind, nlong);
+            let d = long_stream(rng, kind, if kind >= 8 { nlong / 4 } else { nlong });
             run_long(out, rng, p, &d, 97);
         }
+    }
+    // very long streams (beyond 2^20 and 2^21 observations), regenerated by the driver
+    for (i, &n) in [(1u64 << 20) + 5, (1 << 21) + 3].iter().enumerate() {
+        generated_stream(out, [0.3, 0.95][i], rng.next_u64(), n, [1.0, 1e6][i]);
     }
     // random p, random short and medium streams
     for _ in 0..(if tier == "thorough" { 400 } else { 80 }) {
